@@ -67,7 +67,7 @@ RECURSIVE BubbleR(_, _)
 BubbleR(s, j) == IF j > 1 /\ CmpReports(s[j], s[j - 1]) < 0 THEN BubbleR(Swap(s, j, j - 1), j - 1) ELSE s
 RECURSIVE ISortR(_, _)
 ISortR(s, i) == IF i > Len(s) THEN s ELSE ISortR(BubbleR(s, i), i + 1)
-SortReports(s) == ISortR([k \in 1..Len(s) |-> [s[k] EXCEPT !.diags = SortDiags(@)]], 2)
+SortReports(s) == LET pre == [k \in 1..Len(s) |-> [s[k] EXCEPT !.diags = SortDiags(@)]] IN ISortR(pre, 2)
 
 \* reporter.go isSameDiagnostics / Report.isEqual (r.isEqual(nr)), exactly as written:
 \* note r.Problem.Lines.Last is compared with nr.Rule.Lines.Last
@@ -107,7 +107,7 @@ DedupOuter(s, i) ==
 Dedup(s) == DedupOuter([k \in 1..Len(s) |-> [r |-> s[k], dup |-> FALSE, dups |-> <<>>]], 1)
 
 \* checkRules' collector followed by what actionLint does before the reporters run
-Process(order) == Dedup(SortReports(CollectAll(order)))
+Process(order) == LET col == CollectAll(order) srt == SortReports(col) IN Dedup(srt)
 
 \* What the reporters read.  Console: per report above the minimal severity that is not a hidden duplicate.
 RKey(r) == [path |-> r.path, sym |-> r.sym, owner |-> r.owner, first |-> r.first, last |-> r.last, rlast |-> r.rlast,
